@@ -1,15 +1,14 @@
 //go:build verif
 
-// C22 correspondence harness: topic-name acceptance through the real CreateTopic and every key
-// constructor that embeds a topic name; same line protocol as lean/Driver/C22.lean.
+// C22 correspondence ops (part of the harness in zz_verif_c22.go, one binary): topic-name acceptance
+// through the real CreateTopic and every key constructor that embeds a topic name; same line protocol
+// as lean/Driver/C22.lean.
 package main
 
 import (
-	"bufio"
 	"context"
 	"encoding/hex"
 	"fmt"
-	"os"
 	"path"
 	"strconv"
 	"strings"
@@ -20,14 +19,14 @@ import (
 	"github.com/KafScale/platform/pkg/storage"
 )
 
-func hx(s string) string {
+func c22kHx(s string) string {
 	if s == "" {
 		return "-"
 	}
 	return hex.EncodeToString([]byte(s))
 }
 
-func unhx(s string) (string, bool) {
+func c22kUnhx(s string) (string, bool) {
 	if s == "-" {
 		return "", true
 	}
@@ -35,13 +34,13 @@ func unhx(s string) (string, bool) {
 	return string(b), err == nil
 }
 
-func newStore() *metadata.InMemoryStore {
+func c22kNewstore() *metadata.InMemoryStore {
 	return metadata.NewInMemoryStore(metadata.ClusterMetadata{
 		Brokers: []protocol.MetadataBroker{{NodeID: 1, Host: "b", Port: 9092}},
 	})
 }
 
-func create(st metadata.Store, name string) string {
+func c22kCreate(st metadata.Store, name string) string {
 	_, err := st.CreateTopic(context.Background(), metadata.TopicSpec{Name: name, NumPartitions: 1, ReplicationFactor: 1})
 	if err == nil {
 		return "accept"
@@ -49,7 +48,7 @@ func create(st metadata.Store, name string) string {
 	return "reject"
 }
 
-func do(f []string) (out string) {
+func c22kDo(f []string) (out string) {
 	defer func() {
 		if r := recover(); r != nil {
 			out = "panic"
@@ -58,14 +57,14 @@ func do(f []string) (out string) {
 	ctx := context.Background()
 	switch {
 	case f[0] == "accept" && len(f) == 2:
-		t, ok := unhx(f[1])
+		t, ok := c22kUnhx(f[1])
 		if !ok {
 			return "bad-op"
 		}
-		return create(newStore(), t)
+		return c22kCreate(c22kNewstore(), t)
 	case f[0] == "keys" && len(f) == 5:
-		ns, ok1 := unhx(f[1])
-		t, ok2 := unhx(f[2])
+		ns, ok1 := c22kUnhx(f[1])
+		t, ok2 := c22kUnhx(f[2])
 		p, err1 := strconv.ParseInt(f[3], 10, 32)
 		b, err2 := strconv.ParseInt(f[4], 10, 64)
 		if !ok1 || !ok2 || err1 != nil || err2 != nil {
@@ -74,37 +73,37 @@ func do(f []string) (out string) {
 		seg, idx, pfx, ctk := storage.VerifKeysC22(ns, t, int32(p), b)
 		off, lease, res, mem := metadata.VerifKeysC22(t, int32(p))
 		return strings.Join([]string{
-			"seg=" + hx(seg), "idx=" + hx(idx), "pfx=" + hx(pfx), "ctk=" + hx(ctk),
-			"cache=" + hx(cache.VerifMakeKeyC22(ctk, int32(p), b)),
-			"off=" + hx(off), "cfg=" + hx(metadata.TopicConfigKey(t)), "pst=" + hx(metadata.PartitionStateKey(t, int32(p))),
-			"del=" + hx(metadata.VerifTopicDeletePrefixC22(t)), "lease=" + hx(lease),
-			"asg=" + hx(metadata.PartitionAssignmentKey(t, int32(p))), "res=" + hx(res), "mem=" + hx(mem),
+			"seg=" + c22kHx(seg), "idx=" + c22kHx(idx), "pfx=" + c22kHx(pfx), "ctk=" + c22kHx(ctk),
+			"cache=" + c22kHx(cache.VerifMakeKeyC22(ctk, int32(p), b)),
+			"off=" + c22kHx(off), "cfg=" + c22kHx(metadata.TopicConfigKey(t)), "pst=" + c22kHx(metadata.PartitionStateKey(t, int32(p))),
+			"del=" + c22kHx(metadata.VerifTopicDeletePrefixC22(t)), "lease=" + c22kHx(lease),
+			"asg=" + c22kHx(metadata.PartitionAssignmentKey(t, int32(p))), "res=" + c22kHx(res), "mem=" + c22kHx(mem),
 		}, " ")
 	case f[0] == "clean" && len(f) == 2:
-		p, ok := unhx(f[1])
+		p, ok := c22kUnhx(f[1])
 		if !ok {
 			return "bad-op"
 		}
-		return "clean " + hx(path.Clean(p))
+		return "clean " + c22kHx(path.Clean(p))
 	case f[0] == "join":
 		var es []string
 		for _, e := range f[1:] {
-			s, ok := unhx(e)
+			s, ok := c22kUnhx(e)
 			if !ok {
 				return "bad-op"
 			}
 			es = append(es, s)
 		}
-		return "join " + hx(path.Join(es...))
+		return "join " + c22kHx(path.Join(es...))
 	case f[0] == "pair" && len(f) == 3:
 		// behaviour-level aliasing probe on one real store: does deleting topic a disturb topic b?
-		a, ok1 := unhx(f[1])
-		b, ok2 := unhx(f[2])
+		a, ok1 := c22kUnhx(f[1])
+		b, ok2 := c22kUnhx(f[2])
 		if !ok1 || !ok2 {
 			return "bad-op"
 		}
-		st := newStore()
-		ra, rb := create(st, a), create(st, b)
+		st := c22kNewstore()
+		ra, rb := c22kCreate(st, a), c22kCreate(st, b)
 		if ra != "accept" || rb != "accept" {
 			return fmt.Sprintf("pair a=%s b=%s", ra, rb)
 		}
@@ -115,18 +114,4 @@ func do(f []string) (out string) {
 		return fmt.Sprintf("pair a=%s b=%s del=%v next=%d nerr=%v", ra, rb, derr == nil, next, nerr == nil)
 	}
 	return "bad-op"
-}
-
-func main() {
-	w := bufio.NewWriter(os.Stdout)
-	defer w.Flush()
-	sc := bufio.NewScanner(os.Stdin)
-	sc.Buffer(make([]byte, 1<<20), 1<<26)
-	for sc.Scan() {
-		f := strings.Fields(sc.Text())
-		if len(f) == 0 || strings.HasPrefix(f[0], "#") {
-			continue
-		}
-		fmt.Fprintln(w, do(f))
-	}
 }
